@@ -230,6 +230,13 @@ def check(ck):
               'dictionary does not make the flow disappear - steps may '
               'live among the processes)',
               c10.r10_9)
+    from . import c07
+    ck.shared('R16.13', 'the store entry point sees the same state as the '
+              'other two: with a pre-built store the initial state is laid '
+              'over it before the views are built (children it creates '
+              'under glob ports are visible from the first invocation, as '
+              'they are when the store is generated from a composite)',
+              c07.r07_7)
 
 
 def r16_10(ck):
@@ -849,6 +856,21 @@ def r16_7(ck):
                'override it is handed',
                'get_schema merges %s: an override would be ignored'
                % sorted(merged))
+    # ... on every call: each value returned is assembled in this call
+    # from ports_schema() (no answer remembered from an earlier call, which
+    # would not see overrides merged in since)
+    for r in A.walk_no_nested(gs.node):
+        if not isinstance(r, ast.Return) or r.value is None:
+            continue
+        fresh = derives(gs.node, r.value, lambda x: isinstance(
+            x, ast.Call) and A.call_name(x) == 'ports_schema', at=r)
+        ck.require(fresh, 'R16.7', gs, r,
+                   'the schema returned is assembled from ports_schema() '
+                   'in this call',
+                   'get_schema returns %s without assembling it from '
+                   'ports_schema() and the overrides held now: an override '
+                   'merged in after the process was first wired no longer '
+                   'reaches it' % A.short(r.value, 40), r)
     mo = ck.fn('Process.merge_overrides', 'core.process')
     ow = Ownership(ck, mo, 'R16.7')
     m = 0
